@@ -128,7 +128,9 @@ def _mixed_block(V, rng, tier):
     dist_op = {}
     mixdtype.run_block(V, rng, torch, torchtt, True, dist_op, 4 if tier == "quick" else 40)      # scalars and operators: the same contract
     dist.update({"operators: " + k: v for k, v in dist_op.items()})
-    return {"mixed_dtype_and_non_dyadic_scalar_cases": dist}
+    import staleprobe
+    n_stale = staleprobe.run_block(V, rng, torch, torchtt, "full / numpy / arithmetic", ["cores", "arith", "svd", "arith"], 8 if tier == "quick" else 80)
+    return {"mixed_dtype_and_non_dyadic_scalar_cases": dist, "read_mutate_read_probe_readouts": n_stale}
 
 def run(tier, seed, replay=None):
     import torch
